@@ -8,22 +8,26 @@ from fractions import Fraction
 
 CLAIM = dict(
     text=("Machine-checked proof (Lean 4) in a dyadic-rational model of IEEE doubles, for ALL finite doubles and ALL "
-          "formats (signed/unsigned, any width, any number of fractional bits): float_to_fp returns exactly the scaled "
-          "value truncated toward zero, or the nearest end of the range (saturation formula, uniqueness of the rule), is "
-          "monotone, never leaves the range, is within one LSB inside the range; float_to_fp(fp_to_float(k)) = k for "
-          "every in-range k that a double holds exactly (all k with |k| <= 2^53; impossible beyond: proved "
-          "counterexample 2^53+1, known finding); the NumPy array converter equals the scalar one element for element "
-          "for 8/16/32 bits and for 64 bits strictly below the rounded clip bound (the proved 64-bit saturation defect "
-          "is reported as a violation with a concrete input); the deprecated float_to_fix equals float_to_fp modulo "
-          "2^n_bits whenever its float bound is exact (n_int <= 53), never trips its assertion, and fix_to_float equals "
-          "fp_to_float on the two's-complement reading. Tied to rig/type_casts.py on every run by exact correspondence "
-          "of all six converters on tens of thousands of generated values x formats (boundaries +-ulps, far beyond, "
-          "subnormal, negative; scalars and arrays of several shapes) with the Lean rule evaluated on every output."),
+          "formats (signed/unsigned, any width >= 1, any number of fractional bits < 1024): float_to_fp returns exactly "
+          "the scaled value truncated toward zero, or the nearest end of the range (fp_total, fp_sat; the rule "
+          "determines the result: spec_unique), is monotone (fp_mono), never leaves the range (fp_range), is within one "
+          "LSB inside the range (fp_lsb); float_to_fp(fp_to_float(k)) = k for every in-range k that a double holds "
+          "exactly (fp_inverse; all |k| <= 2^53: exact53_of_small; impossible beyond: inverse_counterexample 2^53+1, "
+          "known finding); the NumPy array converter equals the scalar one element for element for 8/16/32 bits "
+          "(array_eq_scalar) and for 64 bits below the rounded clip bound (array64_eq_scalar_below_bound), while at or "
+          "above it the pinned code casts out of range (array64_defect_all: reported as a violation with a concrete "
+          "input; the repaired code is proved equal for all four widths: array_eq_scalar_repaired); the deprecated "
+          "float_to_fix (widths <= 64) never trips its assertion, equals float_to_fp modulo 2^n_bits whenever its float "
+          "bound is exact (n_int <= 53; for every width after the repair) and fix_to_float equals fp_to_float on the "
+          "two's-complement reading. Tied to rig/type_casts.py on every run by exact correspondence of all six "
+          "converters on tens of thousands of generated values x formats (boundaries +-ulps, far beyond, subnormal, "
+          "negative; scalars and arrays of several shapes) with the Lean rule evaluated on every output."),
     design="3/C16",
     note=("Doubles are modelled as (m, e) pairs; IEEE facts in the trusted base: scaling by a power of two is exact "
           "barring overflow/underflow, int() truncates, int->double is round-to-nearest-even, np.clip compares exactly, "
           "an out-of-range float->int cast is unspecified. Array input dtype float64 (float32 arrays are outside the "
-          "claim). NaN/inf inputs are outside the property."),
+          "claim). NaN/inf inputs are outside the property. The model covers both the pinned code and the code after "
+          "fixes/c16-saturate-64bit.diff; the harness detects which one the tree contains."),
     technique="Lean 4 theorems over a hand-written model + differential correspondence + Lean spec as oracle")
 
 THEOREMS = ["dtypes_cover", "fp_total", "fp_sat", "spec_unique", "spec_range", "fp_range", "fp_lsb", "fp_mono",
